@@ -8,10 +8,10 @@ rm -rf $wt; git -C /repo worktree add -q --detach $wt HEAD || exit 2
 cd $wt
 cp $src/demo_test.go zz_seed_demo_test.go
 names=$(grep -o "^func Test[A-Za-z0-9_]*" zz_seed_demo_test.go | sed 's/func //' | paste -sd'|')
-clean=$(go test -vet=off -count=1 -run "^($names)\$" . 2>&1 | grep -c "^ok")
+clean=$(go test $SEED_GOTEST_FLAGS -vet=off -count=1 -run "^($names)\$" . 2>&1 | grep -c "^ok")
 git apply $src/patch.diff || { echo "patch does not apply"; cd /; git -C /repo worktree remove --force $wt; exit 3; }
 build=$(go build ./... 2>&1 | wc -l)
-mutated=$(go test -vet=off -count=1 -run "^($names)\$" . 2>&1 | grep -c "^FAIL")
+mutated=$(go test $SEED_GOTEST_FLAGS -vet=off -count=1 -run "^($names)\$" . 2>&1 | grep -c "^FAIL")
 rm zz_seed_demo_test.go
 suite=$(go test -vet=off -count=1 -timeout 10m -skip 'TestRedisUnblock|TestRedisSet$' ./... 2>&1 | grep -c "^ok")
 cd /; git -C /repo worktree remove --force $wt
